@@ -864,10 +864,7 @@ func ruleLastBatchCache(e *Engine, r *Report) {
 		c, ok := in.(ssa.CallInstruction)
 		return ok && e.IsMethodCall(c, putM)
 	}
-	isSet := func(in ssa.Instruction) bool {
-		c, ok := in.(*ssa.Call)
-		return ok && e.CallsTo(c, setLast)
-	}
+	isSet := e.throughHelpers(func(c ssa.CallInstruction) bool { return e.CallsTo(c, setLast) })
 	exempt := reqCmp("this is not the last batch of the save", "!=", func(v ssa.Value) bool { return stripConv(v) == ssa.Value(lastParam) }, anyV())
 	res := e.pathUnless(rb, nil, isPut, isSet, exempt)
 	var w []string
@@ -902,10 +899,7 @@ func ruleChunkFileSync(e *Engine, r *Report) {
 	if save == nil || syncF == nil {
 		return
 	}
-	isSync := func(in ssa.Instruction) bool {
-		c, ok := in.(*ssa.Call)
-		return ok && e.CallsTo(c, syncF)
-	}
+	isSync := e.throughHelpers(func(c ssa.CallInstruction) bool { return e.CallsTo(c, syncF) })
 	for _, name := range []string{"IsLastFileChunk", "IsLastChunk"} {
 		m := e.Func("(*raftpb.Chunk)." + name)
 		if m == nil {
@@ -952,10 +946,7 @@ func ruleSnapshotStatusReported(e *Engine, r *Report) {
 	if ps == nil || notify == nil {
 		return
 	}
-	isNotify := func(in ssa.Instruction) bool {
-		c, ok := in.(*ssa.Call)
-		return ok && e.CallsTo(c, notify)
-	}
+	isNotify := e.throughHelpers(func(c ssa.CallInstruction) bool { return e.CallsTo(c, notify) })
 	n := 0
 	fns := append([]*ssa.Function{ps}, ps.AnonFuncs...)
 	hasNotify := false
